@@ -72,7 +72,7 @@ func runC17s(a hx.Args) string {
 		case op == opNull:
 			stack = append(stack, seqFrame{null: true, r: b.MakeNullMove()})
 		default:
-			m := move.Move(op)
+			m := hx.U2M(uint64(op))
 			stack = append(stack, seqFrame{m: m, r: b.MakeMove(m)})
 		}
 	}
@@ -100,7 +100,7 @@ func (s *sessionBuilder) eval() {
 
 func (s *sessionBuilder) mk(m move.Move) {
 	s.stack = append(s.stack, seqFrame{m: m, r: s.b.MakeMove(m)})
-	s.ops = append(s.ops, uint64(m))
+	s.ops = append(s.ops, hx.M2U(m))
 	s.desc = append(s.desc, m.String())
 }
 
